@@ -1711,4 +1711,90 @@ example : ∃ d, exportDoc exOD1 true = some d ∧ (importEds d (some 5)).isSome
     (by decide) (Or.inl rfl)
   exact ⟨d, h1, by rw [h2]; rfl⟩
 
+/-! ## T export_import_history -/
+
+/-- the dictionary `export_import` says the re-import yields -/
+def backOf (od : OD) (dcf : Bool) (arg : Option Int) : OD :=
+  addListed dcf od (od.iter.filter isManufacturer)
+    (addListed dcf od (od.iter.filter isOptional)
+      (addListed dcf od (od.iter.filter isMandatory)
+        (addDummies (dummiesOf od)
+          { comments := joinWith c!"\n" (splitLines od.comments), bauds := baudsBack od,
+            devInfo := devInfoBack od,
+            bitrate := if commWritten od dcf then truthyInt od.bitrate else none,
+            nodeId := if commWritten od dcf then arg else none })))
+
+/-- a round of a history within the property's domain: the hypotheses of `export_import` on its
+    dictionary, and a file name that `import_od` takes for an EDS/DCF -/
+structure StepOK (s : RoundStep) : Prop where
+  od : ODOK s.nodeId s.od
+  names : ListedNamesOK s.od (s.od.iter.filter fun i => isMandatory i || isOptional i || isManufacturer i)
+  nodup : s.od.iter.Nodup
+  arg : s.nodeId.isSome = true ∨ truthyInt s.od.nodeId = none ∨ s.dcf = false
+  path : ∀ p, s.dest = .file p → suffixOf p = c!".eds" ∨ suffixOf p = c!".dcf"
+
+theorem roundStep_ok (fs : Files) (s : RoundStep) (h : StepOK s) :
+    (roundStep fs s).2 = roundTrip s.od s.dcf s.nodeId ∧
+    ∃ d, roundTrip s.od s.dcf s.nodeId = some (d, some (backOf s.od s.dcf s.nodeId)) := by
+  obtain ⟨d, hd, hi⟩ := export_import s.od s.dcf s.nodeId h.od h.names h.nodup h.arg
+  refine ⟨?_, d, by simp only [roundTrip, hd, Option.map_some, hi]; rfl⟩
+  unfold roundStep roundTrip
+  rw [hd]
+  cases hdest : s.dest with
+  | stream => rfl
+  | file p =>
+    have hp := h.path p hdest
+    simp only [importPath, Files.write, dictGet_dictSet_same, importOd, Option.map_some]
+    rw [if_pos hp]
+
+/-- **Histories.**  Several export/import rounds within one process — to the same file names again and
+    again with other dictionaries, to other names, through text streams or standard output, in any
+    order and from any file system to start with: *every* round of the history is the round trip of
+    its own dictionary alone (nothing of an earlier round survives), and that round trip returns the
+    dictionary exported in that round (`export_import`, step by step). -/
+theorem export_import_history (steps : List RoundStep) (hok : ∀ s ∈ steps, StepOK s) (fs : Files) :
+    roundHistory fs steps = steps.map (fun s => roundTrip s.od s.dcf s.nodeId) ∧
+    ∀ s ∈ steps, ∃ d, roundTrip s.od s.dcf s.nodeId = some (d, some (backOf s.od s.dcf s.nodeId)) := by
+  refine ⟨?_, fun s hs => (roundStep_ok fs s (hok s hs)).2⟩
+  induction steps generalizing fs with
+  | nil => rfl
+  | cons s r ih =>
+    simp only [roundHistory, List.map_cons, List.cons.injEq]
+    exact ⟨(roundStep_ok fs s (hok s (by simp))).1, ih (fun x hx => hok x (by simp [hx])) _⟩
+
+/-- the same file exported to twice with different dictionaries, a stream round in between: the model's
+    history returns, round by round, what a single round returns -/
+def exOD2 : OD := ({ comments := c!"1\n2\n3\n4\n5\n6\n7\n8\n9\n10\n11\n12", nodeId := some 4 } : OD).addObject
+  (.var { exVar with default := some (.int 1234) })
+
+example :
+    roundHistory [] [{ od := exOD1, dcf := true, dest := .file c!"device.dcf", nodeId := some 5 },
+                     { od := exOD, dcf := false, dest := .stream, nodeId := some 5 },
+                     { od := exOD2, dcf := true, dest := .file c!"device.dcf", nodeId := some 4 }]
+      = [roundTrip exOD1 true (some 5), roundTrip exOD false (some 5), roundTrip exOD2 true (some 4)] := by
+  decide +kernel
+
+/-- … and the third round brings back the twelve comment lines in their order and the new default -/
+example :
+    ((roundTrip exOD2 true (some 4)).bind (·.2)).map (fun od => (od.comments, od.nodeId,
+      (od.byIndex 0x6072).map fun o => match o with | .var v => v.default | _ => none))
+      = some (c!"1\n2\n3\n4\n5\n6\n7\n8\n9\n10\n11\n12", some 4, some (some (.int 1234))) := by
+  decide +kernel
+
+example : StepOK { od := exOD1, dcf := true, dest := .file c!"device.dcf", nodeId := some 5 } where
+  od := exOD1_ok
+  names := by
+    intro i hi
+    have h : (exOD1.iter.filter fun i => isMandatory i || isOptional i || isManufacturer i) = [0x6072] := by decide
+    have hi' : i ∈ [0x6072] := by rw [← h]; exact hi
+    have : i = 0x6072 := by simpa using hi'
+    subst this
+    exact ⟨.var exVar, by decide, by decide, (by decide : exVar.index < 65536)⟩
+  nodup := by decide
+  arg := Or.inl rfl
+  path := by
+    intro p hp
+    cases hp
+    exact Or.inr (by decide)
+
 end Canopen.C14
